@@ -384,6 +384,14 @@ StartOK(d) ==
               /\ UpperGuardOK(r.ts, LoadedOffset(d)))
             => IndexOK(r.ts, LoadedOffset(d))
 
+(* the ghost set of delivered reports, rebuilt from the report file *)
+SeenFrom(reps, eq, off) ==
+  [id \in DOMAIN eq |->
+     [ts \in {reps[i].ts : i \in {j \in 1..Len(reps) :
+                 reps[j].id = id /\ reps[j].ts >= off /\ reps[j].ts < off + Window}} |->
+        {[v |-> reps[i].v, sig |-> reps[i].sig] :
+           i \in {j \in 1..Len(reps) : reps[j].id = id /\ reps[j].ts = ts}}]]
+
 (* Start-up, as the code performs it: load the files (StartLoad), then the  *)
 (* blocking catch-up loop of rotations with the UDP listener already live,  *)
 (* then the remaining listeners (StartDone).                                *)
@@ -404,7 +412,7 @@ StartLoad ==
               /\ archive' = disk.stats
               /\ servers' = <<>> /\ migr' = EmptyFn
               /\ disk' = [disk EXCEPT !.keys = "ok", !.reports = r.reports]
-              /\ seen' = [id \in DOMAIN e.equip |-> EmptyFn]
+              /\ seen' = SeenFrom(disk.reports, e.equip, off)
   /\ UNCHANGED now
 
 StartFailed ==
